@@ -5,13 +5,13 @@ from check import Suite
 from props.parsing import *
 
 def gen_blocks(tier, rng):
-    n = 4000 if tier == "quick" else 300000
+    n = 12000 if tier == "quick" else 300000
     out = [req_blocks(d.render()) for d in docs(rng, n)]
     out += [req_blocks(b) for b in byte_stream(tier, rng, n // 2, n // 4, 3 if tier == "quick" else 4) if len(b) < 20000]
     return out
 
 def gen_noop(tier, rng):
-    n = 300 if tier == "quick" else 30000
+    n = 1500 if tier == "quick" else 30000
     return ["noop-reconcile " + d.render().hex() for d in docs(rng, n) if d.records]
 
 def oracle_noop(req, out):
